@@ -58,8 +58,9 @@ fn spawn(kind: &str, extra: &[String]) -> Worker {
 }
 
 // Run all items through `nworkers` supervised workers; answers in input order.
+// the per-case limit is on the worker's CPU time, so a loaded machine cannot turn a slow case into a "time-out"
 pub fn run(kind: &str, extra: &[String], items: &[String], timeout: Duration) -> Vec<Answer> {
-    run_batched(kind, extra, items, timeout, 128)
+    run_full(kind, extra, items, timeout, 128, true)
 }
 
 // CPU seconds (user + system) consumed so far by process `pid`, from /proc (robust against a loaded machine, unlike wall time)
